@@ -116,7 +116,7 @@ type Term struct {
 }
 
 func (t *Term) IsConst() bool { return t.op == OpConst }
-func (t *Term) Sort() Sort     { return t.sort }
+func (t *Term) Sort() Sort    { return t.sort }
 
 type TermStore struct {
 	tab    map[string]*Term
